@@ -230,6 +230,9 @@ def run_step(step, comps):
             sys.stderr.write(traceback.format_exc())
             with open(os.environ["VERIF_DEBUG_TB"], "a") as fh:
                 fh.write(traceback.format_exc() + "\n")
+        if type(e).__name__ == "ParseError" and isinstance(getattr(e, "errors", None), list):
+            # ParseError.errors is the documented, structured part of the outcome: what was found wrong, in which order
+            return ["exc", "ParseError", [str(d.get("description")) for d in e.errors if isinstance(d, dict)]]
         return ["exc", type(e).__name__]
 
 
